@@ -4,7 +4,7 @@ expressed by substituting index terms into the pointwise value."""
 import z3
 
 from . import theory_np
-from .values import ONE, ExcVal, Space, SymRaise, Undecided, V, fresh_name, ite, num, real, root_space, to_term
+from .values import only_kw, ONE, ExcVal, Space, SymRaise, Undecided, V, fresh_name, ite, num, real, root_space, to_term
 
 
 def at(v, idx):
@@ -46,6 +46,7 @@ def _facts(axes):
 
 
 def np_diff(x, append=None, **kw):
+    only_kw("theory_seq.np_diff", kw)
     theory_np._use("numpy.diff(x, append=a): d[i] = x[i+1]-x[i], last entry a - x[-1]")
     if not (isinstance(x, V) and len(x.axes) == 1) or kw:
         raise Undecided("np.diff form")
@@ -63,6 +64,7 @@ def np_diff(x, append=None, **kw):
 
 def make(interp):
     def np_divide(a, b, out=None, where=None, casting=None, **kw):
+        only_kw("theory_seq.np_divide", kw)
         theory_np._use("numpy.divide(a,b,out=zeros,where=c): a/b where c holds, 0 elsewhere (A-REAL: no integer truncation, see the bounded dtype companion)")
         q = a / b
         if where is None:
@@ -75,13 +77,16 @@ def make(interp):
         return V(r.t, r.axes, None, nan, inf)
 
     def np_zeros_like(x, **kw):
+        only_kw("theory_seq.np_zeros_like", kw)
         x = theory_np.lift(x)
         return V(0 * num(x.t), x.axes)
 
     def np_ones(n, **kw):
+        only_kw("theory_seq.np_ones", kw)
         return OnesOf(n)
 
     def np_arange(a, b=None, **kw):
+        only_kw("theory_seq.np_arange", kw)
         theory_np._use("numpy.arange(a,b): the integers a..b-1")
         if b is None:
             a, b = 0, a
@@ -96,6 +101,7 @@ def make(interp):
         return V(sp.u + a, (sp,), meta=("arange", a, b))
 
     def np_searchsorted(a, v, side="left", **kw):
+        only_kw("theory_seq.np_searchsorted", kw)
         theory_np._use("numpy.searchsorted(sorted a, v, side): #{i : a[i] <= v} ('right') / #{i : a[i] < v} ('left'), for non-decreasing a")
         if side not in ("right", "left") or not (isinstance(a, V) and len(a.axes) == 1):
             raise Undecided("searchsorted form")
